@@ -115,6 +115,8 @@ func c09Ops() []c09Op {
 		c09Op{name: "AppendList(X509 list built by AppendBytes certA-DER, certB-DER)", kind: "appendlist", ltyp: x, lst: []string{"O1:certA-DER", "O1:certB-DER"}},
 		c09Op{name: "AppendList(X509 list built by AppendBytes certA-DER, certC-DER)", kind: "appendlist", ltyp: x, lst: []string{"O1:certA-DER", "O1:certC-DER"}},
 		c09Op{name: "AppendList(SHA256 list built by AppendBytes h1, h1, h2)", kind: "appendlist", ltyp: s, lst: []string{"O1:h1", "O1:h1", "O2:h2"}},
+		c09Op{name: "AppendList(X509 list built by AppendBytes certA-PEM)", kind: "appendlist", ltyp: x, lst: []string{"O2:certA-PEM"}},
+		c09Op{name: "AppendList(X509 list built by AppendBytes certB-DER, certA-PEM)", kind: "appendlist", ltyp: x, lst: []string{"O1:certB-DER", "O2:certA-PEM"}},
 		c09Op{name: "AppendDatabase(db with X509[certB-DER] and SHA256[h2])", kind: "appenddb"},
 		c09Op{name: "encode-decode", kind: "encdec"},
 	)
